@@ -900,3 +900,45 @@ def sp_median_of(I, st, args, kwargs):
     t = I.stubs._pairs_to_table(I, st, pairs)
     M = I.stubs._table_syms()
     return VReal(M(t.fields['keys'].arr, t.fields['vals'].arr, pairs.length, name.t))
+
+
+@spec('sumR')
+def sp_sumR(I, st, args, kwargs):
+    a, m = args
+    return VReal(SUMR(a.arr, to_term(m, 'int')))
+
+
+@spec('last')
+def sp_last(I, st, args, kwargs):
+    """last(pylist): the most recently appended entry of a python-level list (e.g. dataset_info['duplicates'])."""
+    return args[0].fields['items'][-1]
+
+
+@spec('count_items')
+def sp_count_items(I, st, args, kwargs):
+    return VInt(len(args[0].fields['items']))
+
+
+@spec('nrows')
+def sp_nrows2(I, st, args, kwargs):
+    return VInt(args[0].rows)
+
+
+@spec('ncols')
+def sp_ncols2(I, st, args, kwargs):
+    return VInt(args[0].cols)
+
+
+@spec('sin')
+def sp_sin(I, st, args, kwargs):
+    return VReal(I.stubs.SIN(to_term(args[0], 'real')))
+
+
+@spec('rowsum')
+def sp_rowsum(I, st, args, kwargs):
+    """rowsum(X, idx, r): sum over the selected columns idx of row r of X."""
+    X, idx, r = args
+    rr = to_term(r, 'int')
+    c_ = z3.Int('c!rowsum')
+    sel = z3.Lambda([c_], X.arr[rr][idx.arr[c_]])
+    return VInt(SUMI(sel, idx.length)) if X.ek == 'int' else VReal(SUMR(sel, idx.length))
